@@ -1085,6 +1085,16 @@ def mon_c13_two(spec, run):
 MONITORS["C13two"] = mon_c13_two
 
 
+def _two(name):
+    def mon(spec, run):
+        return MONITORS[name](spec, _SubRun(run, first_connection_only(run.trace)))
+    return mon
+
+
+for _n in ("C01", "C08", "C12", "C20"):
+    MONITORS[_n + "two"] = _two(_n)
+
+
 class _SubRun:
     def __init__(self, run, trace):
         self.trace, self.results, self.now, self.status = trace, run.results, run.now, run.status
